@@ -151,10 +151,11 @@ def history_batch(mem, depth, budget, mixed_segments=False):
     that matters when the segments are concatenated into one external blob (-d gnu-ld)"""
     m = Module()
     m.mems.append(mem)
-    m.datas.append(('passive', 0, b'', bytes([0xd0, 0xd1, 0xd2, 0xd3, 0xd4, 0xd5, 0xd6, 0xd7])))
+    # (zero bytes at both ends: a passive segment is copied byte for byte by memory.init, its zeros included - the destination is pre-filled by stores)
+    m.datas.append(('passive', 0, b'', bytes([0x00, 0xd1, 0xd2, 0x00, 0xd4, 0xd5, 0x00, 0x00])))
     if mixed_segments:
         m.datas.append(('active', 0, i32_const(40), bytes([0xa1, 0xa2, 0xa3, 0xa4, 0xa5])))
-        m.datas.append(('passive', 0, b'', bytes([0xe0, 0xe1, 0xe2])))
+        m.datas.append(('passive', 0, b'', bytes([0xe0, 0xe1, 0x00])))
         m.datas.append(('active', 0, i32_const(43), bytes([0xb1, 0xb2, 0xb3, 0xb4])))
     m.datacount = True
     F = {}
